@@ -98,7 +98,7 @@ DISPATCH_BUDGET = {"quick": 640, "thorough": 32000}
 
 LAYOUT_BUDGET = {"quick": 320, "thorough": 16000}
 # the invariants over the complete cycle (price updates and driver phases included) live in one module
-EXTRA_TARGETS = {p: ["Properties.Full"] for p in ("C02", "C07", "C08", "C10", "C17")}
+EXTRA_TARGETS = {p: ["Properties.Full"] for p in ("C02", "C04", "C07", "C08", "C10", "C17")}
 TIMED_REQUEST_DIFFS = r"admitted|cancelled|requests present"
 
 
@@ -412,7 +412,7 @@ MECH_BUDGET = {"quick": 1600, "thorough": 100000}
 
 def energy_check(prop: str, tier: str, seed: int, text_rule: str, assumptions: List[str]) -> int:
     v = fw.Verdict(prop, tier, seed, "proof")
-    ps = fw.ProofStatus(prop, [f"Properties.{prop}"])
+    ps = fw.ProofStatus(prop, [f"Properties.{prop}"] + EXTRA_TARGETS.get(prop, []))
     ml = layers.mech_layer(seed, MECH_BUDGET[tier])
     ok1 = use_simple_layer(v, prop, ml, "mech", [prop])
     n_hist, steps = HIST_BUDGET[tier]
